@@ -76,26 +76,26 @@ def field_mask(a):
     return ((1 << width) - 1) << a.bitpos
 
 
-def _values(sx, a):
+def _values(sx, a, pfx=""):
     """(value handed to the setter, value expected on read-back)."""
     from sx.core import SymFmt
     if a.type == "Enum":
-        li = sx.choice("label", len(a.items))
+        li = sx.choice(pfx + "label", len(a.items))
         return a.items[li], a.items[li]
     if a.type == "Bool":
         forms = [True, False, "true", "false", "True", "FALSE"]
-        f = forms[sx.choice("bool_form", len(forms))]
+        f = forms[sx.choice(pfx + "bool_form", len(forms))]
         return f, (f is True or (isinstance(f, str) and f.lower() == "true"))
     if a.type in ("Byte", "Word"):
-        v = sx.int_("value", 0, 255 if a.type == "Byte" else 65535)
-        if sx.choice("as_string", 2):
+        v = sx.int_(pfx + "value", 0, 255 if a.type == "Byte" else 65535)
+        if sx.choice(pfx + "as_string", 2):
             if sx.symbolic:
                 return SymFmt([(v, "")]), v
             return str(v), v
         return v, v
     if a.type == "Time":
-        h = sx.int_("hour", 0, 255)
-        m = sx.int_("minute", 0, 255)
+        h = sx.int_(pfx + "hour", 0, 255)
+        m = sx.int_(pfx + "minute", 0, 255)
         if sx.symbolic:
             s = SymFmt([(h, "02"), ":", (m, "02")])
         else:
@@ -170,6 +170,81 @@ def roundtrip(sig):
     return scenario
 
 
+def sequence(sig):
+    """write, then the spa changes the sibling bits of the same field, then write again: the second device
+    write must preserve the *current* sibling bits (nothing remembered from the first write)"""
+    def scenario(sx):
+        from geckolib.driver import GeckoStructure, GeckoAsyncStructure
+        from sx.loader import STRUCT_SHIM
+        sigs, reps = signatures()
+        a0 = reps[sig]
+        async_ = bool(sx.choice("async_path", 2))
+        blk = sx.bytes_("block", 8)
+        pos = 2
+        writes = []
+
+        async def on_async(p, l, v):
+            writes.append((p, l, v))
+        st = GeckoAsyncStructure(None, on_async) if async_ else GeckoStructure(lambda p, l, v: writes.append((p, l, v)))
+        st.set_status_block(blk)
+        acc = copy.copy(a0)
+        acc.pos = pos
+        acc._observers = []
+        acc.struct = st
+        acc.set_read_write("ALL")
+        st.accessors = {"item": acc}
+        fm = field_mask(a0)
+        full = (1 << (8 * a0.length)) - 1
+        fmt = ">B" if a0.length == 1 else ">H"
+
+        def write(v):
+            del writes[:]
+            if async_:
+                drive(acc.async_set_value(v))
+            else:
+                acc._set_value(v)
+            return writes[0]
+        v1, _ = _values(sx, a0, "first_")
+        p1, l1, n1 = write(v1)
+        st.replace_status_block_segment(p1, STRUCT_SHIM.pack(fmt, n1))       # the spa applies it and echoes
+        # the spa (keypad, another client) now changes the other bits of the same field
+        other = sx.int_("sibling_bits", 0, full)
+        cur = STRUCT_SHIM.unpack(fmt, st.status_block[pos:pos + a0.length])[0]
+        newfield = (cur & fm) | (other & ~fm & full)
+        st.replace_status_block_segment(pos, STRUCT_SHIM.pack(fmt, newfield))
+        v2, exp2 = _values(sx, a0, "second_")
+        p2, l2, n2 = write(v2)
+        sx.observe("second", (p2, l2, n2))
+        sx.check(((n2 ^ newfield) & ~fm & full) == 0, "rt.second-write-keeps-current-sibling-bits",
+                 lambda: f"field {newfield:#x} -> write {n2:#x}")
+        st.replace_status_block_segment(p2, STRUCT_SHIM.pack(fmt, n2))
+        sx.check(acc.value == exp2, "rt.second-write-reads-back")
+    return scenario
+
+
+def cross_table(tag, mods):
+    """the same item name written through two different tables in one process: each write is encoded with
+    its own table's labels"""
+    def scenario(sx):
+        from geckolib.driver import GeckoStructure
+        import importlib
+        outs = []
+        for i, mod in enumerate(mods):
+            m = importlib.import_module(f"geckolib.driver.packs.{mod}")
+            cls = getattr(m, "GeckoConfigStruct", None) or m.GeckoLogStruct
+            writes = []
+            st = GeckoStructure(lambda p, l, v: writes.append((p, l, v)))
+            a = cls(st).accessors[tag]
+            a.set_read_write("ALL")
+            li = sx.choice(f"label{i}", len(a.items))
+            a._set_value(a.items[li])
+            p, l, n = writes[0]
+            idx = a.items.index(a.items[li])
+            got = (n >> a.bitpos) & a.bitmask if a.bitpos is not None else n
+            sx.check(got == idx, "rt.label-encoded-by-its-own-table", lambda: f"{mod}.{tag} {a.items[li]!r}: {got} vs {idx}")
+    return scenario
+
+
 def positions(modname):
     """Every item of one module lies inside the status block (so the proof at a symbolic
     in-range position applies to it), and belongs to a proved signature."""
@@ -197,6 +272,26 @@ def units(tier):
         if sig[0] == "GeckoTempStructAccessor":
             continue  # decided in IEEE-754 arithmetic by the temperature units below
         yield Unit(sig_name(sig, members), roundtrip(sig), max_paths=5000)
+    # multi-step: bit-field signatures (a field shared with siblings)
+    seen_shapes = set()
+    for sig, members in sorted(sigs.items(), key=lambda kv: sig_name(*kv)):
+        if sig[2] is None or sig[0] == "GeckoTempStructAccessor" or (sig[3] and len(sig[3]) > 8):
+            continue        # (large label sets are covered one write at a time by the sig.* units)
+        shape = (sig[0], sig[2], sig[4], sig[7], len(sig[3]) if sig[3] else 0)
+        if shape in seen_shapes:
+            continue
+        seen_shapes.add(shape)
+        yield Unit("sequence." + sig_name(sig, members)[4:], sequence(sig), max_paths=20000)
+    # the same tag with different label lists in different tables
+    by_tag = {}
+    for sig, members in sigs.items():
+        if sig[1] == "Enum":
+            for (mod, tag, pos) in members:
+                by_tag.setdefault(tag, {}).setdefault(sig[3], mod)
+    for tag, variants in sorted(by_tag.items()):
+        if len(variants) >= 2:
+            mods2 = [m for _, m in sorted(variants.items(), key=lambda kv: kv[1])][:2]
+            yield Unit(f"cross-table.{tag}", cross_table(tag, mods2), validate=False)
     mods = sorted({m for ms in sigs.values() for (m, _, _) in ms})
     for m in mods:
         yield Unit(f"pos.{m}", positions(m), validate=False)
